@@ -954,12 +954,19 @@ class Object(ObjectAliasMixin):
         if self.parent is None or self.is_module:
             raise NameResolutionError(f"{name} could not be resolved in the scope of {self.path}")
 
+        # The body of a class is not an enclosing scope for the classes nested in it:
+        # Python looks names up in the innermost class body, then in enclosing functions and in the module.
+        parent = self.parent
+        if self.is_class:
+            while parent.is_class and parent.parent is not None:
+                parent = parent.parent
+
         # Name is parent, non-module object.
-        if name == self.parent.name and not self.parent.is_module:
-            return self.parent.path
+        if name == parent.name and not parent.is_module:
+            return parent.path
 
         # Recurse in parent.
-        return self.parent.resolve(name)
+        return parent.resolve(name)
 
     def as_dict(self, *, full: bool = False, **kwargs: Any) -> dict[str, Any]:
         """Return this object's data as a dictionary.
